@@ -295,9 +295,27 @@ def run(rep, tier, root=None):
         ls = lambda k, num: Rat.atom(Fn("linspace", (Rat.const(0), k - 1, num, True)))
         nx, ny = Rat.sym("nx", ("int",)), Rat.sym("ny", ("int",))
         c1, c2 = a.args[1], a.args[2]
-        okc = {vk(c1), vk(c2)} == {vk(ls(n0, nx)), vk(ls(n1, ny))}
-        rep.check(okc, "B3.zoom-grid", g.fq + ": evaluated on linspace(0, n-1, new) per axis",
-                  "evaluation coordinates are %s, %s" % (nf(c1, 80), nf(c2, 80)), g.where())
+        # in this order: the spline's first argument runs along axis 0 (rows, new count nx = newSize[0]), the second along
+        # axis 1 - swapped, a non-square target comes back with its two sizes exchanged
+        okc = vk(c1) == vk(ls(n0, nx)) and vk(c2) == vk(ls(n1, ny))
+        swapped = vk(c1) == vk(ls(n1, ny)) and vk(c2) == vk(ls(n0, nx))
+        rep.check(okc, "B3.zoom-grid", g.fq + ": evaluated on linspace(0, n-1, new) per axis, rows first",
+                  ("the spline is evaluated at (column coordinates, row coordinates): the result has shape (newSize[1], newSize[0]) - for a "
+                   "non-square target the zoomed array is not of the requested size" if swapped else
+                   "evaluation coordinates are %s, %s" % (nf(c1, 80), nf(c2, 80))), g.where())
+        # an integer target size is accepted by both entry points (newSize[0] of an int raises TypeError, not IndexError)
+        tries = [t_ for t_ in ast.walk(g.node) if isinstance(t_, ast.Try)]
+        caught = set()
+        for t_ in tries:
+            for h_ in t_.handlers:
+                for x_ in ([h_.type] if h_.type is not None and not isinstance(h_.type, ast.Tuple) else (h_.type.elts if h_.type is not None else [])):
+                    caught.add(norm_text(x_).split(".")[-1])
+                if h_.type is None:
+                    caught.add("TypeError")
+        if tries:
+            rep.check("TypeError" in caught or "Exception" in caught, "B3.integer-size", g.fq + ": a plain integer newSize is accepted",
+                      "newSize[0] on an integer raises TypeError, which the size unpacking does not catch (it catches %s): %s(a, 6) raises"
+                      % (sorted(caught), name), g.where())
         # complex = f(real) + 1j f(imag) with the same arguments
         re_ = vr.subst(lambda x: Rat.atom(Fn("real", (arr,))) if x == Sym("array") else None)
         im_ = vr.subst(lambda x: Rat.atom(Fn("imag", (arr,))) if x == Sym("array") else None)
